@@ -273,6 +273,26 @@ func TestVerifEngineChild(t *testing.T) {
 		time.Sleep(100 * time.Millisecond)
 		rep.HashAfter = treeHash(root)
 		rep.Ran = true
+	case "dry+run":
+		// one Project, no Reload in between: a preview and then the build (what the REPL does with run(x, dry_run=True)
+		// followed by run(x))
+		l, err := label.Parse(rawLabel)
+		if err != nil {
+			rep.RunErr = "bad label: " + err.Error()
+			break
+		}
+		rep.HashBefore = treeHash(root)
+		proj.Run(l, &RunOptions{DryRun: true})
+		rep.HashAfter = treeHash(root)
+		if rep.HashBefore != rep.HashAfter {
+			rep.RunErr = "dry run changed the tree"
+		}
+		rec.add("LoadDone", nil, "") // marks the start of the second run for the parent's event parser
+		err = proj.Run(l, &RunOptions{})
+		if rep.RunErr == "" {
+			rep.RunErr = errText(err)
+		}
+		rep.Ran = true
 	case "dry+reload+run":
 		l, err := label.Parse(rawLabel)
 		if err != nil {
